@@ -5,6 +5,78 @@ From NSQV Require Import gen.CoreShape proofs.CoreSrcDefs.
 Import ListNotations.
 Open Scope string_scope.
 
+Lemma src_protocolV2_FIN : shape_protocolV2_FIN = expect_protocolV2_FIN.
+Proof. reflexivity. Qed.
+Lemma src_protocolV2_REQ : shape_protocolV2_REQ = expect_protocolV2_REQ.
+Proof. reflexivity. Qed.
+Lemma src_protocolV2_TOUCH : shape_protocolV2_TOUCH = expect_protocolV2_TOUCH.
+Proof. reflexivity. Qed.
+Lemma src_protocolV2_CLS : shape_protocolV2_CLS = expect_protocolV2_CLS.
+Proof. reflexivity. Qed.
+Lemma src_protocolV2_SendMessage : shape_protocolV2_SendMessage = expect_protocolV2_SendMessage.
+Proof. reflexivity. Qed.
+Lemma src_Channel_put : shape_Channel_put = expect_Channel_put.
+Proof. reflexivity. Qed.
+Lemma src_Channel_PutMessage : shape_Channel_PutMessage = expect_Channel_PutMessage.
+Proof. reflexivity. Qed.
+Lemma src_Channel_PutMessageDeferred : shape_Channel_PutMessageDeferred = expect_Channel_PutMessageDeferred.
+Proof. reflexivity. Qed.
+Lemma src_Channel_StartInFlightTimeout : shape_Channel_StartInFlightTimeout = expect_Channel_StartInFlightTimeout.
+Proof. reflexivity. Qed.
+Lemma src_Channel_StartDeferredTimeout : shape_Channel_StartDeferredTimeout = expect_Channel_StartDeferredTimeout.
+Proof. reflexivity. Qed.
+Lemma src_Channel_FinishMessage : shape_Channel_FinishMessage = expect_Channel_FinishMessage.
+Proof. reflexivity. Qed.
+Lemma src_Channel_RequeueMessage : shape_Channel_RequeueMessage = expect_Channel_RequeueMessage.
+Proof. reflexivity. Qed.
+Lemma src_Channel_TouchMessage : shape_Channel_TouchMessage = expect_Channel_TouchMessage.
+Proof. reflexivity. Qed.
+Lemma src_Channel_pushInFlightMessage : shape_Channel_pushInFlightMessage = expect_Channel_pushInFlightMessage.
+Proof. reflexivity. Qed.
+Lemma src_Channel_popInFlightMessage : shape_Channel_popInFlightMessage = expect_Channel_popInFlightMessage.
+Proof. reflexivity. Qed.
+Lemma src_Channel_processInFlightQueue : shape_Channel_processInFlightQueue = expect_Channel_processInFlightQueue.
+Proof. reflexivity. Qed.
+Lemma src_Channel_processDeferredQueue : shape_Channel_processDeferredQueue = expect_Channel_processDeferredQueue.
+Proof. reflexivity. Qed.
+Lemma src_Channel_flush : shape_Channel_flush = expect_Channel_flush.
+Proof. reflexivity. Qed.
+Lemma src_Channel_exit : shape_Channel_exit = expect_Channel_exit.
+Proof. reflexivity. Qed.
+Lemma src_Channel_Empty : shape_Channel_Empty = expect_Channel_Empty.
+Proof. reflexivity. Qed.
+Lemma src_Channel_empty : shape_Channel_empty = expect_Channel_empty.
+Proof. reflexivity. Qed.
+Lemma src_Channel_AddClient : shape_Channel_AddClient = expect_Channel_AddClient.
+Proof. reflexivity. Qed.
+Lemma src_Channel_RemoveClient : shape_Channel_RemoveClient = expect_Channel_RemoveClient.
+Proof. reflexivity. Qed.
+Lemma src_Topic_messagePump : shape_Topic_messagePump = expect_Topic_messagePump.
+Proof. reflexivity. Qed.
+Lemma src_Topic_put : shape_Topic_put = expect_Topic_put.
+Proof. reflexivity. Qed.
+Lemma src_Topic_PutMessage : shape_Topic_PutMessage = expect_Topic_PutMessage.
+Proof. reflexivity. Qed.
+Lemma src_Topic_PutMessages : shape_Topic_PutMessages = expect_Topic_PutMessages.
+Proof. reflexivity. Qed.
+Lemma src_Topic_flush : shape_Topic_flush = expect_Topic_flush.
+Proof. reflexivity. Qed.
+Lemma src_Topic_exit : shape_Topic_exit = expect_Topic_exit.
+Proof. reflexivity. Qed.
+Lemma src_Topic_GetChannel : shape_Topic_GetChannel = expect_Topic_GetChannel.
+Proof. reflexivity. Qed.
+Lemma src_Topic_DeleteExistingChannel : shape_Topic_DeleteExistingChannel = expect_Topic_DeleteExistingChannel.
+Proof. reflexivity. Qed.
+Lemma src_NSQD_GetTopic : shape_NSQD_GetTopic = expect_NSQD_GetTopic.
+Proof. reflexivity. Qed.
+Lemma src_NSQD_DeleteExistingTopic : shape_NSQD_DeleteExistingTopic = expect_NSQD_DeleteExistingTopic.
+Proof. reflexivity. Qed.
+Lemma src_NSQD_Exit : shape_NSQD_Exit = expect_NSQD_Exit.
+Proof. reflexivity. Qed.
+Lemma src_clientV2_SetReadyCount : shape_clientV2_SetReadyCount = expect_clientV2_SetReadyCount.
+Proof. reflexivity. Qed.
+Lemma src_clientV2_IsReadyForMessages : shape_clientV2_IsReadyForMessages = expect_clientV2_IsReadyForMessages.
+Proof. reflexivity. Qed.
 Lemma src_clientV2_SendingMessage : shape_clientV2_SendingMessage = expect_clientV2_SendingMessage.
 Proof. reflexivity. Qed.
 Lemma src_clientV2_FinishedMessage : shape_clientV2_FinishedMessage = expect_clientV2_FinishedMessage.
@@ -13,22 +85,30 @@ Lemma src_clientV2_TimedOutMessage : shape_clientV2_TimedOutMessage = expect_cli
 Proof. reflexivity. Qed.
 Lemma src_clientV2_RequeuedMessage : shape_clientV2_RequeuedMessage = expect_clientV2_RequeuedMessage.
 Proof. reflexivity. Qed.
-Lemma src_Channel_processInFlightQueue : shape_Channel_processInFlightQueue = expect_Channel_processInFlightQueue.
+Lemma src_clientV2_StartClose : shape_clientV2_StartClose = expect_clientV2_StartClose.
 Proof. reflexivity. Qed.
-Lemma src_Channel_FinishMessage : shape_Channel_FinishMessage = expect_Channel_FinishMessage.
+Lemma src_protocolV2_NewClient : shape_protocolV2_NewClient = expect_protocolV2_NewClient.
 Proof. reflexivity. Qed.
-Lemma src_Channel_PutMessage : shape_Channel_PutMessage = expect_Channel_PutMessage.
+Lemma src_Channel_doPause : shape_Channel_doPause = expect_Channel_doPause.
 Proof. reflexivity. Qed.
-Lemma src_Channel_PutMessageDeferred : shape_Channel_PutMessageDeferred = expect_Channel_PutMessageDeferred.
+Lemma src_Topic_doPause : shape_Topic_doPause = expect_Topic_doPause.
 Proof. reflexivity. Qed.
-Lemma src_Topic_PutMessage : shape_Topic_PutMessage = expect_Topic_PutMessage.
+Lemma src_Channel_popDeferredMessage : shape_Channel_popDeferredMessage = expect_Channel_popDeferredMessage.
 Proof. reflexivity. Qed.
-Lemma src_Topic_PutMessages : shape_Topic_PutMessages = expect_Topic_PutMessages.
+Lemma src_Channel_pushDeferredMessage : shape_Channel_pushDeferredMessage = expect_Channel_pushDeferredMessage.
 Proof. reflexivity. Qed.
-Lemma src_protocolV2_FIN : shape_protocolV2_FIN = expect_protocolV2_FIN.
+Lemma src_Channel_addToInFlightPQ : shape_Channel_addToInFlightPQ = expect_Channel_addToInFlightPQ.
 Proof. reflexivity. Qed.
-Lemma src_protocolV2_REQ : shape_protocolV2_REQ = expect_protocolV2_REQ.
+Lemma src_Channel_addToDeferredPQ : shape_Channel_addToDeferredPQ = expect_Channel_addToDeferredPQ.
+Proof. reflexivity. Qed.
+Lemma src_pump_loop_head : seg "for {" "call client.IsReadyForMessages" shape_protocolV2_messagePump = expect_pump_loop_head.
+Proof. reflexivity. Qed.
+Lemma src_pump_not_ready : seg "if subChannel == nil || !client.IsReadyForMessages() {" "call client.writeLock.Lock" shape_protocolV2_messagePump = expect_pump_not_ready.
+Proof. reflexivity. Qed.
+Lemma src_pump_deliver : drop_until "if len(b) != 0 {" shape_protocolV2_messagePump = expect_pump_deliver.
+Proof. reflexivity. Qed.
+Lemma src_pump_sources : cases_of shape_protocolV2_messagePump = expect_pump_sources.
 Proof. reflexivity. Qed.
 
 Lemma src_C13 : src_facts_C13.
-Proof. unfold src_facts_C13. repeat split; first [exact src_clientV2_SendingMessage | exact src_clientV2_FinishedMessage | exact src_clientV2_TimedOutMessage | exact src_clientV2_RequeuedMessage | exact src_Channel_processInFlightQueue | exact src_Channel_FinishMessage | exact src_Channel_PutMessage | exact src_Channel_PutMessageDeferred | exact src_Topic_PutMessage | exact src_Topic_PutMessages | exact src_protocolV2_FIN | exact src_protocolV2_REQ]. Qed.
+Proof. unfold src_facts_C13. repeat split; first [exact src_protocolV2_FIN | exact src_protocolV2_REQ | exact src_protocolV2_TOUCH | exact src_protocolV2_CLS | exact src_protocolV2_SendMessage | exact src_Channel_put | exact src_Channel_PutMessage | exact src_Channel_PutMessageDeferred | exact src_Channel_StartInFlightTimeout | exact src_Channel_StartDeferredTimeout | exact src_Channel_FinishMessage | exact src_Channel_RequeueMessage | exact src_Channel_TouchMessage | exact src_Channel_pushInFlightMessage | exact src_Channel_popInFlightMessage | exact src_Channel_processInFlightQueue | exact src_Channel_processDeferredQueue | exact src_Channel_flush | exact src_Channel_exit | exact src_Channel_Empty | exact src_Channel_empty | exact src_Channel_AddClient | exact src_Channel_RemoveClient | exact src_Topic_messagePump | exact src_Topic_put | exact src_Topic_PutMessage | exact src_Topic_PutMessages | exact src_Topic_flush | exact src_Topic_exit | exact src_Topic_GetChannel | exact src_Topic_DeleteExistingChannel | exact src_NSQD_GetTopic | exact src_NSQD_DeleteExistingTopic | exact src_NSQD_Exit | exact src_clientV2_SetReadyCount | exact src_clientV2_IsReadyForMessages | exact src_clientV2_SendingMessage | exact src_clientV2_FinishedMessage | exact src_clientV2_TimedOutMessage | exact src_clientV2_RequeuedMessage | exact src_clientV2_StartClose | exact src_protocolV2_NewClient | exact src_Channel_doPause | exact src_Topic_doPause | exact src_Channel_popDeferredMessage | exact src_Channel_pushDeferredMessage | exact src_Channel_addToInFlightPQ | exact src_Channel_addToDeferredPQ | exact src_pump_loop_head | exact src_pump_not_ready | exact src_pump_deliver | exact src_pump_sources]. Qed.
